@@ -176,6 +176,7 @@ def run_A(scn, cfg, chooser, ref_cache=None):
     # ---- optional second lazy result computed in the SAME graph (dask key collisions, shared
     #      state between two results of one operation) --------------------------------------
     pair = None
+    shares_cube = False
     if build_exc is None and scn.get("pair") and not relax:
         try:
             pscn = scn["pair"]
@@ -186,7 +187,7 @@ def run_A(scn, cfg, chooser, ref_cache=None):
                 paux = S.build_aux(pscn, lazy=True)
                 if pscn.get("share_cube"):
                     # both results hang off the very same lazy cube object (one upstream graph)
-                    rr.probes["pair_shares_lazy_cube"] = rr.probes.get("pair_shares_lazy_cube", 0) + 1
+                    shares_cube = True
                     plazy = S.apply_op(pscn, lazy_cube, lazy=True, aux=paux)
                 else:
                     pcube = S.build_cube(pscn)
@@ -308,6 +309,8 @@ def run_A(scn, cfg, chooser, ref_cache=None):
             rr.violations.append(("upstream-intermediate-modified", "the dask-backed input cube, computed in the same graph as the result, no longer equals the data it was built from (a task changed a block that another task reads)"))
     if pair is not None and pair_computed is not None:
         rr.probes["pair_computed_in_one_graph"] = rr.probes.get("pair_computed_in_one_graph", 0) + 1
+        if shares_cube:
+            rr.probes["pair_shares_lazy_cube"] = rr.probes.get("pair_shares_lazy_cube", 0) + 1
         for cls, msg in S.compare(pair["ref"], S.normalise(pair_computed)):
             rr.violations.append((f"paired-result-differs-{cls}", f"second lazy result computed in the same graph: {msg}"))
     # ---- cold wrapper still works afterwards ------------------------------
